@@ -922,10 +922,10 @@ Proof.
         let '(rb, xb, wb) := buffer_frame (set_additional_raw x0 None) msg w0 in
         match rb with
         | RErr (EWriteBufferFull f') => (ROk false, set_additional xb f', wb)
-        | RErr e => (RErr e, xb, wb)
+        | RErr e => (RErr e, set_unflushed xb true, wb)
         | RPanic s => (RPanic s, xb, wb)
         | ROutOfFuel => (ROutOfFuel, xb, wb)
-        | ROk _ => (ROk true, xb, wb)
+        | ROk _ => (ROk true, set_unflushed xb true, wb)
         end
     | None => (ROk (x_unflushed x0), x0, w0)
     end = (r1, x1, w1) /\ wgood r1 /\ keep F x0 w0 x1 w1).
@@ -933,9 +933,10 @@ Proof.
     - destruct (buffer_frame (set_additional_raw x0 None) msg w0) as [[rb xb] wb] eqn:E.
       apply (buffer_frame_spec F) in E. destruct E as [E1 E2].
       assert (K0 : keep F x0 w0 xb wb) by (revert E2; clear; keep_solve).
+      assert (K0u : keep F x0 w0 (set_unflushed xb true) wb) by (revert E2; clear; keep_solve).
       destruct rb as [u'|e|s|].
-      + eexists _, _, _. split; [reflexivity|split; [exact I|exact K0]].
-      + destruct e; try (destruct E1; fail); try (eexists _, _, _; split; [reflexivity|split; [exact I|exact K0]]; fail).
+      + eexists _, _, _. split; [reflexivity|split; [exact I|exact K0u]].
+      + destruct e; try (destruct E1; fail); try (eexists _, _, _; split; [reflexivity|split; [exact I|exact K0u]]; fail).
         eexists _, _, _. split; [reflexivity|split; [exact I|]].
         eapply keep_trans; [exact K0|apply set_additional_keep].
       + destruct E1.
